@@ -13,6 +13,11 @@ CHECKS = {
    text="Each generated fit of the real SMO solver is judged by an independent oracle: box and equality constraints, KKT conditions per coefficient class up to the configured solver eps (scaled by the recovered margin r for nu-SVC), decision value = sum alpha_i K(x_i,x) - rho with the harness's kernel, labels = sign, Platt output monotone in [0,1], nsupport recounted. Exploration over randomised datasets and the configuration grid; nothing is proved.",
    note="Trusts the harness's f64 kernel/KKT arithmetic, rustc, ndarray. Tolerance = solver eps (+ noise floor 1024*eps_F*n*(sum|alpha K|+|rho|+1)); degenerate nu-SVC fits (margin r<=0) and fits that stop on the iteration cap are inconclusive. nu-SVR's missing nu constraint is a recorded known finding.",
    ref="DESIGN.md §5 C13"),
+ "C03": dict(
+   technique="runtime monitor: metamorphic batch-vs-single-row oracle over a zoo of fitted predictors x 8 batch compositions x 7 calling forms x 4 memory layouts; composite wrappers judged against harness-defined member models",
+   text="Every fitted instance of every predictor family is driven through all calling forms and layouts; the prediction of each row alone is the reference for every batch (exact for labels, noise floor for reals), output counts and handed-back records are checked, MultiTarget/MultiClass/Platt wrappers are compared with members whose outputs the harness controls (ties, |f| up to 1e300). Exploration over seeds and batch compositions.",
+   note="Trusts the zoo's conversion of outputs to f64 and the noise floor 1024*eps_F*p*(1+max|output|) for differently blocked matrix products. Models whose fit legitimately errors are inconclusive.",
+   ref="DESIGN.md §5 C03"),
 }
 
 NOT_YET = {}
